@@ -24,7 +24,7 @@ FLOATS = {"f1": ["5.4", "-0.25", ".5", "3.", "1.5e3", "2.E-2"], "f2": ["0.125", 
 QSTRS = {"s1": ["Hello", "a b  c", "it's", 'say "hi"', "caf\u00e9 \u00fc\u4e2d", ""],
          "s2": ["x,y=(1)[2]:#z", "C:\\temp\\new.csv", "tab\there", "two\nlines", "\\", "ends with backslash-quote \\\""],
          # written over two lines: a raw line break between the quotes (the token itself advances the line)
-         "sm": ["first line\nsecond line", "a,\n b", "x\n", "(\n)", "# no comment\nk: v", "\n"],
+         "sm": ["first line\nsecond line", "a,\n b", "x\n", "(\n)", "# no comment\nk: v", "\n", "dos\r\nline", "=\r\n"],
          "s3": ["/Other/Path/9.txt", " lead and trail ", "100%", "\u00b5g/L", "a\\\\b", "'q'"]}
 BARES = {"w1": ["Foo", "/Path/To/123.txt", "x_1.y_2", "A+/-B", "file.txt", "3d", "False positives removed"],
          "w2": ["LowToHigh", "/a b/c d.csv", "_x", "a.b.c", "data/in.csv", "123abc", "Not True"],
@@ -659,6 +659,7 @@ def check_C10(tier):
     report_syntax(chk, "C10", rows, {"C10"})
     check_strings(chk, "C10", tier)
     check_known_classes(chk, "C10")
+    parser_histories(chk, tier, prop="C10")
     chk.cov["rule"] = ("TLC runs the renderer state machine of MPSyntax: exhaustively for one-argument programs with a line break at any gap, and by simulation for two/three-command programs over all "
                        "value kinds (ints, decimals, exponent floats, quoted/bare strings, nested lists, tuples, EEMS 2.0 style commands) with spaces, tabs, LF/CRLF, comments, blank lines and trailing commas, "
                        "checking RoundTrip, LinesTrue, CorruptionRejected; every rendering is concretised (2-4 lexeme variants), parsed by the real parser, abstracted back and validated by TLC against "
@@ -715,10 +716,11 @@ PO_TEXTS = {"t_plain": ("A = Cmd(P = 1)\nB = Other()", 1, 3), "t_lead": ("\n# c\
             "t_crlf": ("\r\n\r\nA = Cmd(P = 1)\r\nB = Other()\r\n", 3, 3), "t_v2": ("\nREAD(InFieldName = x)\n", 2, 2),
             "t_split": ("\nA =\n  Cmd(P = 1)", 2, 3),
             # malformed texts: the parse raises after some lines have been lexed
-            "t_bad": ("\n\nA = Cmd(\n  P = \n)\nB = Other()", -1, -1), "t_badv2": ("\nREAD(InFieldName = x)\n\nB = Other(P = [1, )\n", -1, -1)}
+            "t_bad": ("\n\nA = Cmd(\n  P = \n)\nB = Other()", -1, -1), "t_badv2": ("\nREAD(InFieldName = x)\n\nB = Other(P = [1, )\n", -1, -1),
+            "t_mixbad": ("A = Cmd(P = [x, k: v], Q = )", -1, -1)}
 
 
-def parser_histories(chk, tier):
+def parser_histories(chk, tier, prop="C11"):
     d = core.scratch_dir("mpv-po-")
     cfg = os.path.join(d, "p.cfg")
     maxhist = 3 if tier == "quick" else 4
@@ -763,6 +765,12 @@ def parser_histories(chk, tier):
         v = verdicts[rec["id"]]
         if isinstance(v, list):
             v = v[0]
+        if prop == "C10":
+            # C10's share: acceptance depends on the text alone (clauses C10.RejectedWellFormed / C10.AcceptedMalformed of MPParserObjTrace)
+            if v.startswith("C10."):
+                chk.finding("C10:parserobj:%s" % v, "history of parses on shared Parser objects: %s" % v,
+                            {"history": [[x[0], x[1], PO_TEXTS[x[1]][0]] for x in rec["ev"]], "events[parser,text,true line,true version,line,version,first]": rec["ev"]})
+            continue
         if v != "ok":
             chk.finding("C11:parserobj:%s" % v, "history of parses on shared Parser objects: %s" % v,
                         {"history": [[e[0], e[1], PO_TEXTS[e[1]][0]] for e in rec["ev"]], "events[parser,text,true line,true version,line,version,first]": rec["ev"]})
